@@ -433,3 +433,8 @@ package redblacktree
 //@   ensures [C11 C12] loaded-all: jobj_kind(bytes, argof(tree.Comparator, 0), tree.Root.Value) == 3 ==> (forall k like argof(tree.Comparator, 0) :: jobj_has(bytes, k, tree.Root.Value) ==> Has(tree, k))
 //@   ensures [C11 C12] loaded-only: jobj_kind(bytes, argof(tree.Comparator, 0), tree.Root.Value) == 3 ==> (forall i :: 0 <= i && i < tree.size ==> jobj_has(bytes, KeyAt(tree, i), tree.Root.Value) && ValAt(tree, i) == jobj_val(bytes, KeyAt(tree, i), tree.Root.Value))
 //@   ensures [C12] null: jobj_kind(bytes, argof(tree.Comparator, 0), tree.Root.Value) == 2 ==> tree.size == 0
+
+//@ -- New: the built-in ordering of an ordered key type is a strict weak order (A-STD: cmp.Compare)
+//@ func New
+//@   modifies nothing
+//@   ensures [C01 C02 C15 C17] fresh(result) && Inv(result) && result.size == 0
